@@ -7,7 +7,7 @@ CLAIM = {
          "the packet tuple is symbolic; z3 proves on every path that matches_with_wildcards() equals the OpenFlow 1.0 field-by-field predicate "
          "(prefix-masked IP compare, prerequisite rules). Lookup: tables of up to 3 entries with symbolic priorities inserted through the real "
          "add_entry; entry_for_packet must return a matching entry of maximal effective priority, exact entries outranking wildcarded ones."
-         " Also: field extraction from frames (incl. a second 802.1Q tag), a buffered frame re-submitted to the table after a header rewrite (O4), and an entry whose flow_mod also drew an error reply (O5).",
+         " Also: field extraction from frames (incl. a second 802.1Q tag), a buffered frame re-submitted to the table after a header rewrite (O4), and an entry whose flow_mod also drew an error reply (O5). O6_lookup_twice: consecutive lookups of different frames in an unchanged table are each right on their own. O7_exact_on_wire: an entry without any wildcard bit on the wire (ARP, non-IP, IP with another protocol) outranks every wildcarded entry.",
  'note': "Trusted: CPython, z3, symx proxies/shims (selftest), the 15-line spec predicate in props/C03.py. Assumes well-formed wire matches "
          "(wildcarded dl_type/nw_proto carry value 0 as the spec requires of ignored fields).",
 }
